@@ -1,7 +1,7 @@
 SPECIFICATION TraceSpec
 CONSTANTS PL = 22 CidLen = 4 CellId = 0 NoCrypto = {2, 3} ExtendId = 4 MaxRelayEarly = 8 Pinned = FALSE
           MaxOps = 100000000 MaxRecv = 100000000
-          Pkts = {} Lids = {} Pfxs = {} Tuns = {}
+          Pkts = {} Lids = {} Pfxs = {} Tuns = {} XPkts = {} Vias = {} Dev = {} Ipv8Versions = {1, 2} TunOps = {}
 INVARIANT TraceAccepted
 INVARIANT Total
 INVARIANT PrefixIsolation
